@@ -53,6 +53,15 @@ theorem inv_after_alignTo {g : GState} (h : Inv cfg g) {n : Nat} (hn : MinAlignO
   obtain ⟨_, g2, g3, g4, _⟩ := C10.alignTo_inv h.cfgOK h.geom hn ha
   exact inv_realign h g2 g3 g4 (liveOK_alignTo h.live hn ha) (alignTo_stable ha) hprep hfr hms
 
+/-- the current chunk of a well-formed state is an admissible `start` of a `BumpAlignGuard` -/
+theorem startOK_cur {s : State} (h : GeomInv cfg s) : StartOK s s.cur := by
+  cases hc : s.cur with
+  | chunk i =>
+    obtain ⟨c, hi, _⟩ := h.cur i hc
+    exact ⟨c, hi⟩
+  | unallocated => trivial
+  | claimed => trivial
+
 theorem inv_alignedEnter {g g' : GState} {out : Out} {n : Nat} (h : Inv cfg g)
     (hs : stepCore cfg g (.alignedEnter n) = .ok (g', out)) : Inv cfg g' := by
   unfold stepCore at hs
@@ -68,8 +77,8 @@ theorem inv_alignedEnter {g g' : GState} {out : Out} {n : Nat} (h : Inv cfg g)
       split at hs
       · rename_i hlt
         cases hs
-        have hfr : FramesOK cfg g.s n (.alignedLower g.s.minAlign :: g.s.frames) g.marks := by
-          simp only [FramesOK]; exact ⟨h.geom.minAlign, h.frames⟩
+        have hfr : FramesOK cfg g.s n (.alignedLower g.s.minAlign g.s.cur :: g.s.frames) g.marks := by
+          simp only [FramesOK]; exact ⟨h.geom.minAlign, startOK_cur h.geom, h.frames⟩
         exact inv_realign (s' := g.s) h (C18.lower_minAlign h.geom hn (Nat.le_of_lt hlt)) (SameShape.refl _) rfl h.live
           (Stable.refl _) hp hfr h.marks
       · rename_i hge
@@ -90,16 +99,22 @@ theorem inv_alignedExit {g g' : GState} {out : Out} (h : Inv cfg g)
   · rename_i u hu
     have hp := noPrepared_ok hu
     split at hs
-    · rename_i outer rest hfr
+    · rename_i outer start rest hfr
       split at hs
       · cases hs
-      · rename_i s' hs'
-        cases hs
-        have hf := h.frames
-        rw [hfr] at hf
-        simp only [FramesOK] at hf
-        obtain ⟨_, g2, g3, g4, _⟩ := C10.alignGuardDrop_inv h.cfgOK h.geom hf.1 hs'
-        exact inv_realign h g2 g3 g4 (liveOK_alignGuardDrop h.live hf.1 hs') (alignGuardDrop_stable hs') hp hf.2 h.marks
+      · rename_i s1 hs1
+        split at hs
+        · cases hs
+        · rename_i s' hs'
+          cases hs
+          have hf := h.frames
+          rw [hfr] at hf
+          simp only [FramesOK] at hf
+          obtain ⟨g1, g2, g3, g4, _⟩ := C10.alignGuardDrop_inv h.cfgOK h.geom hf.1 hs1
+          obtain ⟨_, k2, k3, k4, _⟩ := C10.alignChunkAt_inv h.cfgOK g1 hf.1 hs'
+          exact inv_realign h (k2 g2) (g3.trans k3) (k4.trans g4)
+            (liveOK_alignChunkAt (liveOK_alignGuardDrop h.live hf.1 hs1) hs')
+            ((alignGuardDrop_stable hs1).trans (alignChunkAt_stable hs')) hp hf.2.2 h.marks
     · rename_i outer rest hfr
       cases hs
       have hf := h.frames
